@@ -9,6 +9,33 @@ use quick_xml::events::attributes::Attribute;
 use quick_xml::events::{BytesCData, BytesEnd, BytesStart, BytesText, Event};
 use quick_xml::{Reader, Writer};
 
+/// Convert the (still escaped) character data of an input text event into
+/// the characters it denotes; the writer escapes text again on output.
+/// References which can't be resolved (e.g. unknown entities) are kept as-is.
+fn unescape_text(raw: &str) -> String {
+    let mut result = String::with_capacity(raw.len());
+    let mut rest = raw;
+    while let Some(start) = rest.find('&') {
+        result.push_str(&rest[..start]);
+        rest = &rest[start..];
+        match rest.find(';') {
+            Some(end) => match quick_xml::escape::unescape(&rest[..=end]) {
+                Ok(unescaped) => {
+                    result.push_str(&unescaped);
+                    rest = &rest[end + 1..];
+                }
+                Err(_) => {
+                    result.push('&');
+                    rest = &rest[1..];
+                }
+            },
+            None => break,
+        }
+    }
+    result.push_str(rest);
+    result
+}
+
 #[derive(Clone, Debug, PartialEq, Eq)]
 pub struct InputEvent {
     event: Event<'static>,
@@ -21,7 +48,9 @@ pub struct InputEvent {
 impl InputEvent {
     pub fn text_string(&self) -> Option<String> {
         match &self.event {
-            Event::Text(t) => Some(String::from_utf8(t.to_vec()).expect("utf8")),
+            Event::Text(t) => Some(unescape_text(
+                &String::from_utf8(t.to_vec()).expect("utf8"),
+            )),
             _ => None,
         }
     }
@@ -285,7 +314,7 @@ pub fn tagify_events(events: InputList) -> Result<Vec<Tag>> {
                 tags.push(Tag::Comment(text, None));
             }
             Event::Text(t) => {
-                let text = String::from_utf8(t.to_vec())?;
+                let text = unescape_text(&String::from_utf8(t.to_vec())?);
                 if let Some(t) = tags.last_mut() {
                     t.set_text(text)
                 } else {
@@ -342,9 +371,9 @@ impl From<InputEvent> for OutputEvent {
                     String::from_utf8(e.name().into_inner().to_vec()).expect("utf8");
                 OutputEvent::End(elem_name)
             }
-            Event::Text(t) => {
-                OutputEvent::Text(String::from_utf8(t.into_inner().to_vec()).expect("utf8"))
-            }
+            Event::Text(t) => OutputEvent::Text(unescape_text(
+                &String::from_utf8(t.into_inner().to_vec()).expect("utf8"),
+            )),
             Event::CData(c) => {
                 OutputEvent::CData(String::from_utf8(c.into_inner().to_vec()).expect("utf8"))
             }
